@@ -5,11 +5,12 @@
            their uncompressed content; what the lexer reports is a function of that list.
    Part 2  the writer: the data section of the ghost trace, flattened, is the sequence of
            records the calls asked for (per class: chunk boundaries erased, message indexes
-           ignored).
-   Part 3  C01: write, then lex.
+           ignored).  Invariant CInv over run_calls, one lemma per writer function.
+   Part 3  C01: write, then lex; decoding the returned tokens gives the written values back.
    Part 4  C11: unknown records are skipped; padded records parse to the same value.
    Part 5  C12: the layout is invisible.
-   Part 6  concrete workloads (non-vacuity). *)
+   Part 6  concrete workloads (non-vacuity), with tactics that establish wf_file by computation.
+   Part 7  C16: the pivot facts of the Go/Python interoperability check. *)
 From Coq Require Import List NArith ZArith Bool Lia ZifyN ZifyNat ZifyBool.
 From Coq.Strings Require Import Byte.
 From RecordUpdate Require Import RecordSet.
@@ -1494,3 +1495,44 @@ Example ex_attachment_pad :
     (rd ((attach_body LexerFactsB.ex_att ex_adata ex_acrc ++ [xde; xad]) ++ [x01]) None false)
   = (Some (EvAttachment (attach_obs ex_lo LexerFactsB.ex_att ex_adata ex_acrc)), None, rd [x01] None false).
 Proof. split; [apply ex_wf_attach; right; reflexivity|vm_compute; reflexivity]. Qed.
+
+(* ====================================================================== *)
+(** * 7. C16: the two facts the Go/Python interoperability check pivots on *)
+
+(* (a) a Go-written file is the rendering of the writer's trace, whose data section holds the
+       records the calls asked for *)
+Theorem C16_go_written_thm : forall o lib comp unz cs',
+  C06_hyps o lib comp cs' ->
+  (forall n plain, unz (o_comp o) (comp n plain) = plain) ->
+  Forall call_small cs' ->
+  let R := W o lib comp None (cs' ++ [CClose]) in
+  let recs := data_records unz (rev (w_trace (r_final R))) in
+  file_of R = render (rev (w_trace (r_final R))) /\
+  filter is_direct recs = expected_records o lib (filter call_direct cs') /\
+  filter is_auto recs = expected_records o lib (filter call_auto cs').
+Proof.
+  intros o lib comp unz cs' H Hunz Hs R recs.
+  split; [exact (C01_file_is_trace_thm o lib comp cs' H)|].
+  destruct (C01_trace_classes_thm o lib comp unz cs' H Hunz Hs) as (A & _ & _ & _ & D & _).
+  split; [exact D|exact A].
+Qed.
+
+(* the uncompressed configurations C16 is about: the stored chunk payload is the plain content *)
+Theorem C16_go_uncompressed_thm : forall o lib comp cs',
+  C06_hyps o lib comp cs' ->
+  (forall n plain, comp n plain = plain) ->
+  Forall call_small cs' ->
+  let R := W o lib comp None (cs' ++ [CClose]) in
+  let recs := data_records (fun _ stored => stored) (rev (w_trace (r_final R))) in
+  file_of R = render (rev (w_trace (r_final R))) /\
+  filter is_direct recs = expected_records o lib (filter call_direct cs') /\
+  filter is_auto recs = expected_records o lib (filter call_auto cs').
+Proof.
+  intros o lib comp cs' H Hc Hs. apply C16_go_written_thm; [exact H| |exact Hs].
+  intros n plain. apply Hc.
+Qed.
+
+Example ex_C16_hyps :
+  C06_hyps ex_o ex_lib ex_comp ex_cs_pre /\ (forall n plain, ex_comp n plain = plain) /\
+  Forall call_small ex_cs_pre.
+Proof. split; [exact ex_C06_hyps|]. split; [reflexivity|exact ex_call_small]. Qed.
